@@ -506,14 +506,9 @@ func (Contains) Eval(left Term, right Term, symbols *SymbolTable) (Term, error) 
 	rhsset, ok := right.(Set)
 
 	if ok {
+		lhs := newTermIndex(set)
 		for _, rhselt := range rhsset {
-			rhsinlhs := false
-			for _, lhselt := range set {
-				if lhselt.Equal(rhselt) {
-					rhsinlhs = true
-				}
-			}
-			if !rhsinlhs {
+			if !lhs.has(rhselt) {
 				return Bool(false), nil
 			}
 		}
